@@ -10,6 +10,7 @@ import pkgutil
 import sys
 
 import cloudpickle
+import numpy as np
 
 
 _MODS = None
@@ -137,10 +138,12 @@ class SimParallel:
     2*n_jobs, worker isolation by pickling (n_jobs>1), completion order chosen by the simulator,
     results returned in submission order, exceptions surfacing when the failing task completes."""
 
-    def __init__(self, sim, n_jobs=None, return_as="list", **_kw):
+    def __init__(self, sim, n_jobs=None, return_as="list", **kw):
         self.sim = sim
         self.n_jobs = n_jobs
         self.return_as = return_as
+        # a thread-based pool: the tasks of a batch share one interpreter (no pickling, shared module state) and interleave
+        self.shared = kw.get("prefer") == "threads" or kw.get("backend") == "threading" or kw.get("require") == "sharedmem"
 
     def __call__(self, iterable):
         order, results = self._execute(iterable)
@@ -166,6 +169,8 @@ class SimParallel:
                 results[k] = sim.on_complete(idx, k, sim.run_task(idx, func, args, kwargs))
                 k += 1
             return list(range(k)), results
+        if self.shared and getattr(sim, "baton", None) is not None:
+            return self._execute_threads(it, n_jobs)
         window = 2 * n_jobs
         inflight = []
         k = 0
@@ -193,9 +198,49 @@ class SimParallel:
             kk, idx, blob = inflight.pop(j)
             func, args, kwargs = pickle.loads(blob)
             sim.stats["isolated-task"] += 1
-            res = sim.run_task(idx, func, args, kwargs)
+            ambient = np.random.get_state()  # noqa: NPY002     a worker process has its own module state
+            try:
+                res = sim.run_task(idx, func, args, kwargs)
+            finally:
+                np.random.set_state(ambient)  # noqa: NPY002
             res = pickle.loads(pickle.dumps(res))
             results[kk] = sim.on_complete(idx, kk, res)
             order.append(kk)
             refill()
+        return order, results
+
+    def _execute_threads(self, it, n_jobs):
+        """waves of up to n_jobs baton-scheduled threads in this interpreter"""
+        from sim.threads import SimThread
+        sim = self.sim
+        results, order, errors = {}, [], []
+        k = 0
+        exhausted = False
+        while not exhausted:
+            wave = []
+            while len(wave) < n_jobs:
+                try:
+                    func, args, kwargs = next(it)
+                except StopIteration:
+                    exhausted = True
+                    break
+                wave.append((k, sim.on_dispatch(k, func, args, kwargs), func, args, kwargs))
+                k += 1
+
+            def work(kk, idx, func, args, kwargs):
+                try:
+                    res = sim.run_task(idx, func, args, kwargs)
+                except BaseException as e:  # noqa: BLE001
+                    errors.append((kk, e))
+                    return
+                results[kk] = sim.on_complete(idx, kk, res)
+                order.append(kk)
+            ths = [SimThread(sim.baton, target=work, args=w, name=f"pool-{w[0]}") for w in wave]
+            for t in ths:
+                t.start()
+            for t in ths:
+                t.join()
+            sim.stats["shared-interpreter-wave"] += 1
+            if errors:
+                raise sorted(errors, key=lambda x: x[0])[0][1]
         return order, results
